@@ -88,9 +88,13 @@ def infer_redirection(url, recursive=True):
         return original_url
 
     # NOTE: a target embedded in the url is strictly shorter than the url. When
-    # it is not (a relative target joined back onto itself), recursing again
-    # would never end.
-    if recursive and len(target) < len(url):
+    # it is not (a relative target joined back onto a url holding the key in
+    # its host, e.g. "http://a&url=%2Fx"), nothing was embedded: resolving it
+    # would grow the url at each application.
+    if len(target) >= len(url):
+        return original_url
+
+    if recursive:
         return infer_redirection(target, recursive=True)
 
     return target
